@@ -1,6 +1,6 @@
 SPECIFICATION TSpec
 CONSTANTS
- MaxReinit = 5  FixLostWorker = FALSE
+ MaxReinit = 5  FixLostWorker = TRUE
  CountCalls = TRUE
  NW <- TrNW  BS <- TrBS  Total <- TrTotal  Chunk = 16384  Timeout <- TrTimeout  Spurious = TRUE  MayFail = TRUE
  Gives = {}  Spaces = {}  FlushActs = {}  HdrSz = 12  TailSz = 0
